@@ -15,7 +15,7 @@ def site_ids(fnode):
     kinds = {ast.Return: "ret", ast.Raise: "raise", ast.Assert: "assert", ast.Subscript: "sub", ast.Call: "call",
              ast.Yield: "yield", ast.YieldFrom: "yieldfrom", ast.For: "loop", ast.While: "loop", ast.BinOp: "binop",
              ast.Assign: "assign", ast.AugAssign: "assign", ast.AnnAssign: "assign", ast.If: "if", ast.Expr: "expr",
-             ast.Try: "try", ast.Delete: "del", ast.ListComp: "listcomp"}
+             ast.Try: "try", ast.Delete: "del", ast.ListComp: "listcomp", ast.GeneratorExp: "listcomp"}
 
     class V(ast.NodeVisitor):
         def generic_visit(self, node):
@@ -217,10 +217,18 @@ def ex_stmt(self, s, st):
     m = getattr(self, "st_" + type(s).__name__, None)
     if m is None:
         raise Untranslatable(f"statement {type(s).__name__}")
+    gs = self.cur_contract.ghost_stmts if self.cur_contract is not None else {}
+    sid = self.cur_site.split("/")[-1] if self.cur_site else None
+    if gs and sid and f"before:{sid}" in gs:
+        self.ghost_exec(gs[f"before:{sid}"], st)
     mark = len(self.raise_buf)
     outs = list(m(s, st))
     raised = self.raise_buf[mark:]
     del self.raise_buf[mark:]
+    if gs and sid and f"after:{sid}" in gs:
+        for o in outs:
+            if o.kind == "normal":
+                self.ghost_exec(gs[f"after:{sid}"], o.state)
     return outs + raised
 
 
@@ -682,7 +690,12 @@ def ghost_exec(self, stmts, st):
         if isinstance(node, ast.Assign) and isinstance(node.targets[0], ast.Attribute):
             obj = self.spec_eval(node.targets[0].value, st)
             v = self.spec_eval(node.value, st)
-            self.set_field(st, obj, node.targets[0].attr, v)
+            saved_spec = self.spec
+            self.spec = True
+            try:
+                self.set_field(st, obj, node.targets[0].attr, v)
+            finally:
+                self.spec = saved_spec
             continue
         raise ContractError(f"ghost statement not understood: {g}")
 
